@@ -2,6 +2,7 @@
 C05 — Multivariate information measures equal their entropy-combination definitions.
 """
 import itertools
+import json
 import math
 from fractions import Fraction
 
@@ -69,13 +70,13 @@ class C05(object):
             d['measure'] = name
             d['groups'] = groups
             d['crvs'] = crvs
-            d['k'] = rng.randint(1, len(groups)) if name == 'cohesion' else 0
+            d['k'] = rng.choice([rng.randint(1, len(groups)), max(1, len(groups) - 1)]) if name == 'cohesion' else 0
             d['byname'] = bool(d['names']) and rng.random() < 0.5
             yield d
 
     def rand_shape(self, rng, n, name):
         vars_ = list(range(n))
-        if name in DISJOINT:
+        if name in DISJOINT and not (name == 'cohesion' and rng.random() < 0.5):   # cohesion also takes overlapping groups
             rng.shuffle(vars_)
             ng = rng.randint(1 if name == 'entropy' else 2, min(n, 4)) if n >= 2 else 1
             cut = sorted(rng.sample(range(1, n), ng - 1)) if ng > 1 else []
@@ -84,13 +85,13 @@ class C05(object):
             groups = []
             rest = []
             for p in parts:
-                if len(groups) < (1 if name == 'entropy' else 2) or rng.random() < 0.7:
+                if len(groups) < (1 if name == 'entropy' else 2) or rng.random() < 0.5:   # the rest is conditioned on or left out
                     groups.append(sorted(p))
                 else:
                     rest += p
             crvs = sorted(rng.sample(rest, rng.randint(0, len(rest)))) if rest else []
         else:
-            ng = rng.randint(1, 4)
+            ng = rng.randint(1, 4) if name != 'cohesion' else rng.randint(2, 4)
             groups = [sorted(rng.sample(vars_, rng.randint(1, min(3, n)))) for _ in range(ng)]
             crvs = sorted(rng.sample(vars_, rng.randint(0, min(2, n))))
         return groups, crvs
@@ -190,6 +191,32 @@ class C05(object):
         if not r.mismatch and not (abs(val - mval) <= 1e-9):
             if not (name == 'interaction_information' and abs(mval) <= 1e-8 and val == 0.0):
                 r.mismatch = 'value: impl %r model %r' % (val, mval)
+        witness_fail = None
+        if r.mismatch and r.mismatch.startswith('coefficient vector'):
+            # the coefficient vectors are distribution-independent; look for a distribution on which the difference shows
+            import random as _r
+            wr = _r.Random(hash(json.dumps([name, groups, crvs, k])) & 0xffffffff)
+            n_ = case['n']
+            outs_w = [list(o) for o in itertools.product([0, 1], repeat=n_)]
+            for _ in range(6):
+                w = [wr.random() + 0.05 for _o in outs_w]
+                tw = sum(w)
+                wc = dict(case)
+                wc.update({'outs': outs_w, 'pmf': [repr(x / tw) for x in w], 'alphabets': [[0, 1]] * n_, 'space': None,
+                           'sparse': True, 'trim': True})
+                dw = dit.Distribution([gen.to_py(o, case['klass']) for o in outs_w], [x / tw for x in w])
+                if names:
+                    dw.set_rv_names(names)
+                try:
+                    vw = float(f(dw, *args, **kw))
+                    rows_w = [(o, x / tw) for o, x in zip(outs_w, w)]
+                    refw = self.reference(name, groups, crvs, k, self.entropies_of_rows(rows_w))
+                    if abs(vw - refw) > 1e-8:
+                        witness_fail = ('%s = %r but its defining entropy combination gives %r on the full-support witness %s'
+                                        % (name, vw, refw, [round(x / tw, 6) for x in w]))
+                        break
+                except Exception:
+                    pass
 
         # ---------------- oracle: definition from fibre sums, signs, two-group coincidence
         H = self.entropies(d, case)
@@ -223,7 +250,7 @@ class C05(object):
                                  % (name, val2, ref2))
                 except Exception as e:  # noqa
                     fails = '%s raised %s after an in-place change' % (name, type(e).__name__)
-        r.oracle_fail = fails
+        r.oracle_fail = fails or witness_fail
         r.detail = {'impl': val, 'model': mval, 'reference': ref,
                     'impl_coeffs': None if sym is None else [(s, str(c)) for s, c in sym]}
         return r
@@ -232,6 +259,10 @@ class C05(object):
     def entropies(self, d, case):
         base = d.get_base()
         rows = [(gen.from_py(o, case['klass']), gen.lin_of(v, base)) for o, v in zip(d.outcomes, d.pmf)]
+        return self.entropies_of_rows(rows)
+
+    @staticmethod
+    def entropies_of_rows(rows):
         cache = {}
 
         def H(S):
